@@ -5,6 +5,7 @@ import SodiumVerif.Model.TxnScript
 import SodiumVerif.Model.Conc
 import SodiumVerif.Model.Struct
 import SodiumVerif.Model.SchedApi
+import SodiumVerif.Model.LazyScript
 
 open SodiumVerif
 
@@ -28,6 +29,13 @@ partial def txnLoop (h : IO.FS.Stream) (out : IO.FS.Stream) (s : TxnScript.S) : 
   let (s', o) := TxnScript.step s line
   out.putStrLn o
   txnLoop h out s'
+
+partial def lazyLoop (h : IO.FS.Stream) (out : IO.FS.Stream) (s : LazyHeap.State) : IO Unit := do
+  let line ← h.getLine
+  if line.isEmpty then return ()
+  let (s', o) := LazyScript.step s line
+  out.putStrLn o
+  lazyLoop h out s'
 
 partial def structLoop (h : IO.FS.Stream) (out : IO.FS.Stream) (s : Struct.PSt) : IO Unit := do
   let line ← h.getLine
@@ -135,6 +143,7 @@ def main (args : List String) : IO UInt32 := do
   | ["spec"] => specMain stdin stdout; return 0
   | ["txn"] => txnLoop stdin stdout {}; return 0
   | ["conc"] => concLoop stdin stdout; return 0
+  | ["lazy"] => lazyLoop stdin stdout LazyHeap.State.empty; return 0
   | ["struct"] => structMain stdin stdout; return 0
   | ["schedapi"] => schedApiLoop stdin stdout {}; return 0
-  | _ => IO.eprintln "usage: driver gc|node|txn|spec|conc|struct|schedapi < script"; return 2
+  | _ => IO.eprintln "usage: driver gc|node|txn|spec|conc|lazy|struct|schedapi < script"; return 2
